@@ -5,10 +5,11 @@
 (*                                                                         *)
 (*        <<n, d, e>>   meaning   n / d * 10^e                             *)
 (*                                                                         *)
-(* in canonical form: d > 0, gcd(n, d) = 1, e a non-negative multiple of   *)
-(* 3, 1000 does not divide n (zero is <<0, 1, 0>>).  The decimal exponent  *)
-(* lets the magnitude suffixes k .. Y (10^3 .. 10^24) be carried exactly.  *)
-(* Two canonical values are equal iff they are the same tuple.             *)
+(* in canonical form: with N/D the value in lowest terms (D > 0) and        *)
+(* N = n * 1000^j, 1000 not dividing n, the tuple is <<n, D, 3j>> (zero is *)
+(* <<0, 1, 0>>).  The decimal exponent lets the magnitude suffixes k .. Y  *)
+(* (10^3 .. 10^21) be carried exactly.  Two canonical values are equal iff *)
+(* they are the same tuple (MC_Arith checks Canonical on every value).     *)
 (*                                                                         *)
 (* Generators and drivers keep operands small enough that no intermediate  *)
 (* product leaves the 32-bit range; TLC reports "Overflow" otherwise and   *)
@@ -29,6 +30,15 @@ Pow10(k) == IF k <= 0 THEN 1 ELSE 10 * Pow10(k - 1)
 RECURSIVE Strip(_)
 Strip(q) == IF q[1] # 0 /\ q[1] % 1000 = 0 THEN Strip(<<q[1] \div 1000, q[2], q[3] + 3>>) ELSE q
 
+\* a positive exponent is folded into the numerator as long as the denominator can cancel part of it
+RECURSIVE Absorb(_)
+Absorb(q) ==
+  IF q[3] > 0 /\ Gcd(q[2], 1000) > 1
+  THEN LET n == q[1] * 1000
+           g == Gcd(Abs(n), q[2])
+       IN  Absorb(<<n \div g, q[2] \div g, q[3] - 3>>)
+  ELSE q
+
 Zero == <<0, 1, 0>>
 One  == <<1, 1, 0>>
 
@@ -36,7 +46,7 @@ Norm(q) ==
   IF q[1] = 0 THEN Zero
   ELSE LET g == Gcd(Abs(q[1]), Abs(q[2]))
            s == IF q[2] < 0 THEN -1 ELSE 1
-       IN  Strip(<<(s * q[1]) \div g, (s * q[2]) \div g, q[3]>>)
+       IN  Strip(Absorb(<<(s * q[1]) \div g, (s * q[2]) \div g, q[3]>>))
 
 Q(n, d)  == Norm(<<n, d, 0>>)
 QInt(n)  == Norm(<<n, 1, 0>>)
